@@ -46,6 +46,19 @@ func main() {
 		os.Exit(cmdRun(os.Args[2:]))
 	case "replay":
 		os.Exit(cmdReplay(os.Args[2:]))
+	case "trail":
+		if len(os.Args) < 3 {
+			os.Exit(2)
+		}
+		tr, err := sim.ChildTrail(os.Args[2])
+		if err != nil {
+			fmt.Fprintln(os.Stderr, err)
+			os.Exit(2)
+		}
+		for _, l := range tr {
+			fmt.Println(l)
+		}
+		os.Exit(0)
 	case "selftest":
 		os.Exit(cmdSelftest(os.Args[2:]))
 	default:
@@ -176,6 +189,19 @@ func cmdWorker(args []string) int {
 			}
 			wo.Samples = append(wo.Samples, sampleOut{Seed: rs, Config: res.Cfg, Intents: ins, TotalIntents: len(res.Intents), Blocks: res.Blocks})
 		}
+		if prop == "C06" && len(res.Viols) == 0 && rs%2 == 0 {
+			// cross-process leg: the same trace in a fresh OS process with another environment
+			wo.Stats.Check("C06:process-compared")
+			v, err := sim.CrossProcess(sim.XprocWorkDir(verifDir), prop, res.Cfg, res.Intents, res.Trail, sim.CrashTag(res), int(rs/2))
+			if err != nil {
+				fmt.Fprintln(os.Stderr, "cross-process leg:", err)
+				return 2
+			}
+			wo.Stats.Fault("fresh_process_other_env")
+			if v != nil {
+				res.Viols = append(res.Viols, v)
+			}
+		}
 		for _, viol := range res.Viols {
 			sig := viol.Signature()
 			if seenSig[sig] {
@@ -188,7 +214,7 @@ func cmdWorker(args []string) int {
 				continue
 			}
 			min := res.Intents
-			if viol.Oracle != "deadlock" { // each deadlock replay leaks a hung app and costs the watchdog
+			if viol.Oracle != "deadlock" && viol.Oracle != "process" { // each deadlock replay leaks a hung app and costs the watchdog; a process divergence is judged against a second process
 				min = sim.Minimise(prop, res.Cfg, res.Intents, sig, 150)
 			}
 			path, err := sim.WriteReplay(replayDir, res, viol, min)
@@ -234,6 +260,18 @@ func cmdReplay(args []string) int {
 	}
 	logOn := len(args) > 1 && args[1] == "--log"
 	res := sim.Replay(rf.Property, rf.Config, rf.Intents, logOn)
+	if rf.Violation != nil && rf.Violation.Oracle == "process" {
+		for variant := 0; variant < 3; variant++ {
+			v, err := sim.CrossProcess(sim.XprocWorkDir(verifDir), rf.Property, rf.Config, rf.Intents, res.Trail, sim.CrashTag(res), variant)
+			if err != nil {
+				fmt.Fprintln(os.Stderr, "cross-process leg:", err)
+				return 2
+			}
+			if v != nil {
+				res.Viols = append(res.Viols, v)
+			}
+		}
+	}
 	if logOn {
 		for _, l := range res.Log {
 			fmt.Println(l)
